@@ -100,6 +100,12 @@ StateFails(e) ==
     \* can carry another worker's schedule time (the harness cannot interleave inside a segment, so it checks the enabling condition)
     \cup Fail("C02_SharedCacheIntact", s.mutated = <<>>)
 
+\* the cron reconciler skips a schedule (concurrency policy Forbid) only when the store counts maxConcurrency active Jobs,
+\* and creates a Job for a Forbid JobConfig only when it counted fewer
+ActiveOf(st, n) == Cardinality({j \in Range(st.jobs) : j.jc = n /\ j.started /\ ~j.term})
+ForbidFails(p, s, e) ==
+    Fail("C06_CronForbid", \A g \in Range(e.skipped) : /\ p.cache[g.jc].pol = "Forbid"
+                                                         /\ g.jc \in DOMAIN p.counter /\ p.counter[g.jc] + 1 > p.cache[g.jc].maxc)
 \* a Job that appears was requested for exactly that JobConfig and time
 StepFails(p, s, rq) ==
     Fail("C02_Requested", \A j \in Range(s.jobs) : (\A q \in Range(p.jobs) : q.name # j.name) => \E f \in rq : f.jc = j.jc /\ f.t = j.sched)
@@ -132,7 +138,7 @@ Next ==
            sk == IF reset THEN {} ELSE skips \cup {<<g.jc, g.t>> : g \in Range(e.skipped)}
            je == IF reset THEN {} ELSE jobsEver \cup JobKeys(s)
            fs == StateFails(e)
-                 \cup (IF reset \/ l = 1 THEN {} ELSE StepFails(p, s, ar))
+                 \cup (IF reset \/ l = 1 THEN {} ELSE StepFails(p, s, ar) \cup ForbidFails(p, s, e))
                  \cup (IF work THEN UNION {pf[n] : n \in NS} ELSE {})
                  \cup (IF boot THEN UNION {BootFails(s, n) : n \in NS} ELSE {})
                  \cup (IF e.ev \in {"Final", "DrainFailed"} THEN FinalFails(s, rq, sk, je) \ (IF e.ev = "Final" THEN {} ELSE {"C20_Quiescent"}) ELSE {})
